@@ -14,6 +14,23 @@ Accepted shapes
   * `PDDLWriter.__init__` must COPY the general keyword set (`set(GENERAL_PDDL_KEYWORDS)`,
     `GENERAL_PDDL_KEYWORDS.copy()` or `GENERAL_PDDL_KEYWORDS | ...`): a bare alias makes `|=` grow the
     module-level set, so the names of one writer would depend on the writers built before it.
+  * every other statement of `PDDLWriter.__init__` that touches `self.pddl_keywords` must be a top-level
+    `if COND: self.pddl_keywords |= TABLE` (no else) with TABLE one of the five optional tables and COND in
+        COND ::= len(self.problem.ATTR) > 0            ATTR in processes, events, trajectory_constraints,
+                                                                timed_effects, timed_goals
+               | any(map(lambda x: isinstance(x, CLS), self.problem.actions))
+               | isinstance(self.problem, CLS)
+               | COND or COND
+    (CLS a bare name or a dotted name, of which the last component is kept).  The conditions are emitted as
+    `pddlSelect : List (KwCond × KwTable)` — WHICH table applies is therefore regenerated from the source like the
+    tables themselves.  Conditions on `self.problem_kind` (or anything else) are refused: the kind of a problem
+    with `discrete_time` has DISCRETE_TIME instead of CONTINUOUS_TIME, a kind-based condition is easy to get wrong
+    and the model has no kind.
+  * ma_pddl_writer.py: `MA_PDDL_KEYWORDS = GENERAL_PDDL_KEYWORDS.union(T1).union(T2)…` and
+    `self.pddl_keywords = MA_PDDL_KEYWORDS` as the only statement of class MAPDDLWriter that touches the set
+    (-> `maSelect : List KwTable`).
+  * `pddlWritten`: every `:word` that occurs in a string literal of pddl_writer.py outside docstrings (the section
+    heads and requirement flags the writer can emit).
   A character class `C` is a sequence of single characters and `x-y` ranges over ASCII letters, digits,
   `_` and a final/initial `-`; it is expanded to the explicit list of its characters.
 """
@@ -24,6 +41,7 @@ from translate import TranslationBroken, _parse, _find_assign, _find_func, _str_
 
 PDDL = "unified_planning/io/pddl_writer.py"
 ANML = "unified_planning/io/anml_writer.py"
+MAPDDL = "unified_planning/io/ma_pddl_writer.py"
 
 
 def _chars(s):
@@ -144,43 +162,191 @@ def _kwset(tree, name, rel):
     return sorted(_str_set(v, rel))
 
 
-def _check_keyword_copy(tree, rel):
-    cls = [n for n in tree.body if isinstance(n, ast.ClassDef) and n.name == "PDDLWriter"]
+TABLES = {"PDDL_PLUS_KEYWORDS": ".plus", "PDDL3_KEYWORDS": ".pddl3", "TEMPORAL_PDDL_KEYWORDS": ".temporal",
+          "CONTINGENT_PDDL_KEYWORDS": ".contingent", "HDDL_KEYWORDS": ".hddl"}
+LEN_ATTRS = {"processes": ".processes", "events": ".events", "trajectory_constraints": ".trajectoryConstraints",
+             "timed_effects": ".timedEffects", "timed_goals": ".timedGoals"}
+
+
+def _is_self_problem(n):
+    return isinstance(n, ast.Attribute) and n.attr == "problem" and isinstance(n.value, ast.Name) and n.value.id == "self"
+
+
+def _last_name(n, rel):
+    """`C` or `a.b.C` -> 'C'"""
+    if isinstance(n, ast.Name):
+        return n.id
+    if isinstance(n, ast.Attribute):
+        m = n
+        while isinstance(m, ast.Attribute):
+            m = m.value
+        if isinstance(m, ast.Name):
+            return n.attr
+    raise TranslationBroken(rel, getattr(n, "lineno", 0), "class in isinstance is not a (dotted) name")
+
+
+def _cls_name(s):
+    return _chars(s)
+
+
+def _kwcond(n, rel):
+    """one condition of PDDLWriter.__init__ -> Lean term of type KwCond"""
+    if isinstance(n, ast.BoolOp) and isinstance(n.op, ast.Or):
+        parts = [_kwcond(v, rel) for v in n.values]
+        out = parts[-1]
+        for p_ in reversed(parts[:-1]):
+            out = f"(.or {p_} {out})"
+        return out
+    # len(self.problem.ATTR) > 0
+    if (isinstance(n, ast.Compare) and len(n.ops) == 1 and isinstance(n.ops[0], ast.Gt)
+            and isinstance(n.comparators[0], ast.Constant) and n.comparators[0].value == 0
+            and type(n.comparators[0].value) is int
+            and isinstance(n.left, ast.Call) and isinstance(n.left.func, ast.Name) and n.left.func.id == "len"
+            and len(n.left.args) == 1 and not n.left.keywords):
+        a = n.left.args[0]
+        if isinstance(a, ast.Attribute) and _is_self_problem(a.value) and a.attr in LEN_ATTRS:
+            return f"(.lenPos {LEN_ATTRS[a.attr]})"
+        raise TranslationBroken(rel, n.lineno, "len(...) > 0 of something that is not a known attribute of self.problem")
+    if isinstance(n, ast.Call) and isinstance(n.func, ast.Name) and not n.keywords:
+        # isinstance(self.problem, CLS)
+        if n.func.id == "isinstance" and len(n.args) == 2 and _is_self_problem(n.args[0]):
+            return f"(.problemIs {_cls_name(_last_name(n.args[1], rel))})"
+        # any(map(lambda x: isinstance(x, CLS), self.problem.actions))
+        if n.func.id == "any" and len(n.args) == 1:
+            m = n.args[0]
+            if (isinstance(m, ast.Call) and isinstance(m.func, ast.Name) and m.func.id == "map" and len(m.args) == 2
+                    and not m.keywords and isinstance(m.args[0], ast.Lambda)
+                    and isinstance(m.args[1], ast.Attribute) and m.args[1].attr == "actions"
+                    and _is_self_problem(m.args[1].value)):
+                lam = m.args[0]
+                la = lam.args
+                if (len(la.args) == 1 and not la.posonlyargs and not la.kwonlyargs and la.vararg is None
+                        and la.kwarg is None and not la.defaults):
+                    x, b = la.args[0].arg, lam.body
+                    if (isinstance(b, ast.Call) and isinstance(b.func, ast.Name) and b.func.id == "isinstance"
+                            and len(b.args) == 2 and not b.keywords and isinstance(b.args[0], ast.Name)
+                            and b.args[0].id == x):
+                        return f"(.anyActionIs {_cls_name(_last_name(b.args[1], rel))})"
+    raise TranslationBroken(rel, getattr(n, "lineno", 0),
+                            "keyword-table condition outside the accepted language (len(self.problem.X) > 0, "
+                            "any(map(lambda a: isinstance(a, C), self.problem.actions)), isinstance(self.problem, C), or): "
+                            + ast.unparse(n)[:120])
+
+
+def _touches_keywords(n):
+    return any(isinstance(m, ast.Attribute) and m.attr == "pddl_keywords" for m in ast.walk(n))
+
+
+def _class_init(tree, cname, rel):
+    cls = [n for n in tree.body if isinstance(n, ast.ClassDef) and n.name == cname]
     if not cls:
-        raise TranslationBroken(rel, 0, "class PDDLWriter not found")
+        raise TranslationBroken(rel, 0, f"class {cname} not found")
     init = [n for n in cls[0].body if isinstance(n, ast.FunctionDef) and n.name == "__init__"]
     if not init:
-        raise TranslationBroken(rel, cls[0].lineno, "PDDLWriter.__init__ not found")
-    order = []
-    for n in ast.walk(init[0]):
-        tgt = None
-        if isinstance(n, ast.Assign) and len(n.targets) == 1:
-            tgt, val = n.targets[0], n.value
-        elif isinstance(n, ast.AugAssign):
-            tgt, val = n.target, n.value
-        if tgt is None or not (isinstance(tgt, ast.Attribute) and tgt.attr == "pddl_keywords"):
+        raise TranslationBroken(rel, cls[0].lineno, f"{cname}.__init__ not found")
+    return cls[0], init[0]
+
+
+def _select(tree, rel):
+    """PDDLWriter.__init__ -> [(cond, table)] in source order"""
+    cls, init = _class_init(tree, "PDDLWriter", rel)
+    out, started = [], False
+    for st in init.body:
+        if not _touches_keywords(st):
             continue
-        if isinstance(n, ast.Assign):
+        if isinstance(st, ast.Assign) and len(st.targets) == 1 and isinstance(st.targets[0], ast.Attribute) \
+                and st.targets[0].attr == "pddl_keywords" and not started:
+            val = st.value
             if isinstance(val, ast.Name):
-                raise TranslationBroken(rel, n.lineno, "self.pddl_keywords aliases the module-level keyword set "
+                raise TranslationBroken(rel, st.lineno, "self.pddl_keywords aliases the module-level keyword set "
                                         "(later `|=` mutates it for every future writer)")
             base = None
             if isinstance(val, ast.Call) and isinstance(val.func, ast.Name) and val.func.id == "set" and len(val.args) == 1 \
                     and isinstance(val.args[0], ast.Name):
                 base = val.args[0].id
             elif isinstance(val, ast.Call) and isinstance(val.func, ast.Attribute) and val.func.attr == "copy" \
-                    and isinstance(val.func.value, ast.Name):
+                    and isinstance(val.func.value, ast.Name) and not val.args:
                 base = val.func.value.id
             if base != "GENERAL_PDDL_KEYWORDS":
-                raise TranslationBroken(rel, n.lineno, "self.pddl_keywords is not initialised with a copy of GENERAL_PDDL_KEYWORDS")
-        else:
-            if not (isinstance(n.op, ast.BitOr) and isinstance(val, ast.Name)):
-                raise TranslationBroken(rel, n.lineno, "unsupported update of self.pddl_keywords")
-            order.append((n.lineno, val.id))
-    got = [x for _, x in sorted(order)]
-    want = ["PDDL_PLUS_KEYWORDS", "PDDL3_KEYWORDS", "TEMPORAL_PDDL_KEYWORDS", "CONTINGENT_PDDL_KEYWORDS"]
-    if got != want:
-        raise TranslationBroken(rel, init[0].lineno, f"keyword unions are {got}, the model has {want}")
+                raise TranslationBroken(rel, st.lineno, "self.pddl_keywords is not initialised with a copy of GENERAL_PDDL_KEYWORDS")
+            started = True
+            continue
+        if started and isinstance(st, ast.If) and not st.orelse and len(st.body) == 1 and isinstance(st.body[0], ast.AugAssign):
+            au = st.body[0]
+            if (isinstance(au.target, ast.Attribute) and au.target.attr == "pddl_keywords" and isinstance(au.op, ast.BitOr)
+                    and isinstance(au.value, ast.Name) and au.value.id in TABLES and not _touches_keywords(st.test)):
+                out.append((_kwcond(st.test, rel), TABLES[au.value.id]))
+                continue
+        raise TranslationBroken(rel, st.lineno, "unsupported statement on self.pddl_keywords in PDDLWriter.__init__ "
+                                "(want `if COND: self.pddl_keywords |= TABLE`)")
+    if not started:
+        raise TranslationBroken(rel, init.lineno, "PDDLWriter.__init__ does not initialise self.pddl_keywords")
+    # nothing else in the class may assign the set
+    for fn in cls.body:
+        if isinstance(fn, ast.FunctionDef) and fn.name != "__init__":
+            for n in ast.walk(fn):
+                tgt = n.targets[0] if isinstance(n, ast.Assign) and len(n.targets) == 1 else \
+                    n.target if isinstance(n, (ast.AugAssign, ast.AnnAssign)) else None
+                if isinstance(tgt, ast.Attribute) and tgt.attr == "pddl_keywords":
+                    raise TranslationBroken(rel, n.lineno, f"PDDLWriter.{fn.name} changes self.pddl_keywords")
+    return out
+
+
+def _ma_select(tree, rel):
+    """ma_pddl_writer.py: MA_PDDL_KEYWORDS = GENERAL_PDDL_KEYWORDS.union(T1).union(T2)… taken unconditionally"""
+    v = _find_assign(tree, "MA_PDDL_KEYWORDS", rel)
+    tabs = []
+    while isinstance(v, ast.Call) and isinstance(v.func, ast.Attribute) and v.func.attr == "union" and len(v.args) == 1 \
+            and not v.keywords and isinstance(v.args[0], ast.Name) and v.args[0].id in TABLES:
+        tabs.append(TABLES[v.args[0].id])
+        v = v.func.value
+    if not (isinstance(v, ast.Name) and v.id == "GENERAL_PDDL_KEYWORDS"):
+        raise TranslationBroken(rel, getattr(v, "lineno", 0), "MA_PDDL_KEYWORDS is not GENERAL_PDDL_KEYWORDS.union(T1).union(T2)…")
+    tabs.reverse()
+    # the tables must be the ones of pddl_writer.py
+    imported = set()
+    for n in tree.body:
+        if isinstance(n, ast.ImportFrom) and n.module == "unified_planning.io.pddl_writer":
+            imported |= {a.name for a in n.names if a.asname is None}
+    for n in tree.body:
+        if isinstance(n, ast.Assign):
+            for t in n.targets:
+                if isinstance(t, ast.Name) and (t.id in TABLES or t.id == "GENERAL_PDDL_KEYWORDS"):
+                    raise TranslationBroken(rel, n.lineno, f"ma_pddl_writer redefines {t.id}")
+    for nme in ["GENERAL_PDDL_KEYWORDS"] + [k for k, c in TABLES.items() if c in tabs]:
+        if nme not in imported:
+            raise TranslationBroken(rel, 0, f"ma_pddl_writer does not import {nme} from pddl_writer")
+    cls, init = _class_init(tree, "MAPDDLWriter", rel)
+    hits = []
+    for n in ast.walk(cls):
+        tgt = n.targets[0] if isinstance(n, ast.Assign) and len(n.targets) == 1 else \
+            n.target if isinstance(n, (ast.AugAssign, ast.AnnAssign)) else None
+        if isinstance(tgt, ast.Attribute) and tgt.attr == "pddl_keywords":
+            hits.append(n)
+    if not (len(hits) == 1 and isinstance(hits[0], ast.Assign) and hits[0] in init.body
+            and isinstance(hits[0].value, ast.Name) and hits[0].value.id == "MA_PDDL_KEYWORDS"):
+        raise TranslationBroken(rel, init.lineno, "MAPDDLWriter must set self.pddl_keywords = MA_PDDL_KEYWORDS once, "
+                                "unconditionally, in __init__ and never update it")
+    return tabs
+
+
+def _written_words(tree, rel):
+    """every `:word` in a string literal of the module that is not a docstring"""
+    import re as _re
+    doc = set()
+    for n in ast.walk(tree):
+        if isinstance(n, (ast.Module, ast.ClassDef, ast.FunctionDef, ast.AsyncFunctionDef)) and n.body \
+                and isinstance(n.body[0], ast.Expr) and isinstance(n.body[0].value, ast.Constant) \
+                and isinstance(n.body[0].value.value, str):
+            doc.add(id(n.body[0].value))
+    words = set()
+    for n in ast.walk(tree):
+        if isinstance(n, ast.Constant) and isinstance(n.value, str) and id(n) not in doc:
+            for m in _re.finditer(r"(?<![0-9A-Za-z_]):([a-z][a-z0-9-]*)", n.value):
+                words.add(m.group(1))
+    if not words:
+        raise TranslationBroken(rel, 0, "no `:word` literal found in the writer")
+    return sorted(words)
 
 
 def _valid_classes(fn, rel):
@@ -207,7 +373,11 @@ def gen_keywords():
     pddl3 = _kwset(pt, "PDDL3_KEYWORDS", prel)
     temporal = _kwset(pt, "TEMPORAL_PDDL_KEYWORDS", prel)
     contingent = _kwset(pt, "CONTINGENT_PDDL_KEYWORDS", prel)
-    _check_keyword_copy(pt, prel)
+    hddl = _kwset(pt, "HDDL_KEYWORDS", prel)
+    select = _select(pt, prel)
+    mt, mrel = _parse(MAPDDL)
+    ma_select = _ma_select(mt, mrel)
+    written = _written_words(pt, prel)
     pfn = _find_func(pt, "_get_pddl_name", prel)
     p_initial, p_default = _initial(pt, prel), _default_letter(pfn, prel)
     p_start, p_keep = _start_class(pfn, prel), _keep_class(pfn, prel)
@@ -223,7 +393,7 @@ def gen_keywords():
         return "[" + ", ".join(f"({_chars(k)}, {_lean_char(v)})" for k, v in tbl) + "]"
 
     L = ["/- GENERATED by harness/translate_C38.py from /repo — do not edit. -/",
-         "import UPVerif.Core.Mangle",
+         "import UPVerif.Core.MangleSelect",
          "namespace UPVerif.Gen",
          "open UPVerif.Mangle",
          "",
@@ -233,6 +403,7 @@ def gen_keywords():
          f"  pddl3 := {_names(pddl3)}",
          f"  pddlTemporal := {_names(temporal)}",
          f"  pddlContingent := {_names(contingent)}",
+         f"  pddlHddl := {_names(hddl)}",
          f"  pddlInitial := {initial(p_initial)}",
          f"  pddlDefault := {_lean_char(p_default)}",
          f"  pddlStart := {_chars(p_start)}",
@@ -244,6 +415,16 @@ def gen_keywords():
          f"  anmlKeep := {_chars(a_keep)}",
          f"  anmlFirst := {_chars(a_first)}",
          f"  anmlRest := {_chars(a_rest)}",
+         "",
+         "/-- `PDDLWriter.__init__`: the `if COND: self.pddl_keywords |= TABLE` statements, in source order -/",
+         "def pddlSelect : List (KwCond × KwTable) :=",
+         "  [" + ",\n   ".join(f"({c}, {t})" for c, t in select) + "]",
+         "",
+         "/-- ma_pddl_writer.py `MA_PDDL_KEYWORDS`: the tables united with the general one -/",
+         "def maSelect : List KwTable := [" + ", ".join(ma_select) + "]",
+         "",
+         "/-- every `:word` in a (non-docstring) string literal of pddl_writer.py -/",
+         f"def pddlWritten : List Name :=\n  {_names(written)}",
          "",
          "end UPVerif.Gen"]
     return "\n".join(L) + "\n"
